@@ -94,3 +94,23 @@ Proof.
   split; [vm_compute; tauto|]. vm_compute. intros H.
   repeat (destruct H as [H|H]; [discriminate H|]). exact H.
 Qed.
+
+(* dial again: when the routed name has no table entry (never had one, or every record that carried it lost it:
+   C17_remove) the forwarding step of an accepted envelope creates a new record for the name, starts its dial
+   and puts the envelope into its buffer *)
+Lemma C16_redial_l : forall cf s p cp e d e',
+  fw s = true -> nth_error (clients s) p = Some cp -> p_rd cp = RDOffer e ->
+  forward cf (p_name cp) e = FRoute d e' ->
+  find_reg d (upd p (set_rd cp RDRead false) (clients s)) 0 = None ->
+  exists s', r_fw_cmd cf p s = Some s' /\
+    dials (log s') = dials (log s) ++ [(length (clients s), d)] /\
+    nth_error (clients s') (length (clients s)) = Some (fst (enqueue_c cf (new_dialled d) e')) /\
+    In (EvFwd p e (length (clients s)) e' (snd (enqueue_c cf (new_dialled d) e'))) (log s').
+Proof.
+  intros cf s p cp e d e' Hfw Hp Hrd Hf Hnone.
+  unfold r_fw_cmd. rewrite Hfw, Hp, Hrd, Hf, Hnone. eexists. split; [reflexivity|].
+  simpl. rewrite length_upd. split; [|split].
+  - unfold dials. rewrite pick_app. simpl. reflexivity.
+  - rewrite <- (length_upd p (set_rd cp RDRead false) (clients s)). apply nth_app_last.
+  - apply in_or_app. right. simpl. auto.
+Qed.
